@@ -14,6 +14,7 @@ import (
 	"fmt"
 	"math"
 	"math/big"
+	"runtime"
 	"strconv"
 	"strings"
 	"sync"
@@ -435,7 +436,8 @@ type input struct {
 	Arg   *sqlArg `json:"arg,omitempty"` // scan / toml
 	Class string  `json:"class"`
 	Hist  []hstep `json:"hist,omitempty"`  // hist / conc: the encoder calls, in order (conc: G = goroutine)
-	Loops int     `json:"loops,omitempty"` // conc: how often every goroutine repeats its call
+	Loops int     `json:"loops,omitempty"` // conc: how often every goroutine repeats its call; par: calls per goroutine; seq: rounds
+	Par   []pstream `json:"par,omitempty"` // par / seq: one stream of inputs per goroutine
 }
 
 // one encoder call of a history
@@ -556,6 +558,7 @@ type runner struct {
 	e        *vh.Env
 	libSkips map[string]int
 	paths    map[string]int
+	parCalls map[string]int
 }
 
 // tokDesc shows a byte string as it is when it is printable ASCII, Go-quoted otherwise
@@ -730,6 +733,8 @@ func (r *runner) run(in input) {
 		r.emit(in, fmt.Sprintf("CValue %s %s %s %s %s %s", in.T, cval(v), cval(old), orc, a.coq(), cres(back)), true, d)
 	case "hist", "conc":
 		r.history(in)
+	case "par", "seq":
+		r.parallel(in)
 	default:
 		panic("harness: unknown op " + in.Op)
 	}
@@ -737,7 +742,7 @@ func (r *runner) run(in input) {
 
 func main() {
 	vh.Main("c20", func(e *vh.Env) {
-		r := &runner{e: e, libSkips: map[string]int{}, paths: map[string]int{}}
+		r := &runner{e: e, libSkips: map[string]int{}, paths: map[string]int{}, parCalls: map[string]int{}}
 		if e.Replay != "" {
 			var in input
 			if err := json.Unmarshal([]byte(e.Replay), &in); err != nil {
@@ -752,6 +757,8 @@ func main() {
 		}
 		e.Meta["paths_reaching_UnmarshalJSON"] = r.paths
 		e.Meta["paths_where_library_did_not_deliver_the_token"] = r.libSkips
+		e.Meta["calls_in_parallel_and_interleaved_classes"] = r.parCalls
+		e.Meta["gomaxprocs"] = runtime.GOMAXPROCS(0)
 		e.Meta["generator"] = "c20 v1: fixed boundary tokens + grammar-driven random tokens per wrapper; values from boundary pools + random bit lengths"
 		e.Meta["focus"] = strings.TrimSpace(e.Focus)
 	})
@@ -923,3 +930,5 @@ func (r *runner) history(in input) {
 	}
 	r.emit(in, "CHist "+vh.CoqList(items), true, d)
 }
+
+func timeDurString(v val) string { return time.Duration(v.Z.Int64()).String() }
